@@ -10,29 +10,34 @@ variable {M E : Type}
 
 /-! ### projections of a trace (what the peers saw) -/
 
+def incRecvMsg? : Label M E → Option M
+  | .incRecvRet (.msg m) => some m
+  | _ => none
+def outSendMsg? : Label M E → Option M
+  | .outSendCall m => some m
+  | _ => none
+def outRecvMsg? : Label M E → Option M
+  | .outRecvRet (.msg m) => some m
+  | _ => none
+def incSendMsg? : Label M E → Option M
+  | .incSendCall m => some m
+  | _ => none
+/-- a terminal result of outgoing.Recv: `none` = EOF (status OK), `some e` = the status error e -/
+def outFinal? : Label M E → Option (Option E)
+  | .outRecvRet .eof => some none
+  | .outRecvRet (.err e) => some (some e)
+  | _ => none
+
 /-- messages the client side handed to Forward (results of Incoming.Recv), in order -/
-def incReceived : List (Label M E) → List M
-  | [] => []
-  | .incRecvRet (.msg m) :: t => m :: incReceived t
-  | _ :: t => incReceived t
-
+def incReceived (tr : List (Label M E)) : List M := tr.filterMap incRecvMsg?
 /-- messages Forward handed to the target (arguments of outgoing.Send), in call order -/
-def outSent : List (Label M E) → List M
-  | [] => []
-  | .outSendCall m :: t => m :: outSent t
-  | _ :: t => outSent t
-
+def outSent (tr : List (Label M E)) : List M := tr.filterMap outSendMsg?
 /-- messages the target produced (results of outgoing.Recv) -/
-def outReceived : List (Label M E) → List M
-  | [] => []
-  | .outRecvRet (.msg m) :: t => m :: outReceived t
-  | _ :: t => outReceived t
-
+def outReceived (tr : List (Label M E)) : List M := tr.filterMap outRecvMsg?
 /-- messages Forward handed to the client (arguments of Incoming.Send) -/
-def incSent : List (Label M E) → List M
-  | [] => []
-  | .incSendCall m :: t => m :: incSent t
-  | _ :: t => incSent t
+def incSent (tr : List (Label M E)) : List M := tr.filterMap incSendMsg?
+/-- terminal results the target produced -/
+def outFinals (tr : List (Label M E)) : List (Option E) := tr.filterMap outFinal?
 
 /-- the value Forward returned, if it returned -/
 def returnedOf : List (Label M E) → Option (Option (Err E))
@@ -41,20 +46,26 @@ def returnedOf : List (Label M E) → Option (Option (Err E))
   | _ :: t => returnedOf t
 
 /-- terminal result of the target: first non-message result of outgoing.Recv (`some none` = EOF/OK) -/
-def targetFinal : List (Label M E) → Option (Option E)
-  | [] => none
-  | .outRecvRet .eof :: _ => some none
-  | .outRecvRet (.err e) :: _ => some (some e)
-  | _ :: t => targetFinal t
+def targetFinal (tr : List (Label M E)) : Option (Option E) := (outFinals tr).head?
 
 def hasFault (tr : List (Label M E)) : Bool := tr.any faultLabel
+
+/-- the request direction ended with EOF: Incoming.Recv returned EOF (client half-close) or
+    outgoing.Send returned EOF (the target ended the stream) -/
+def isHalf : Label M E → Bool
+  | .incRecvRet .eof => true
+  | .outSendRet .eof => true
+  | _ => false
+def halfClosed (tr : List (Label M E)) : Bool := tr.any isHalf
+def isCloseSend : Label M E → Bool
+  | .outCloseSend => true
+  | _ => false
 
 /-- the client half-closed (Incoming.Recv returned EOF) -/
 def clientClosed (tr : List (Label M E)) : Bool :=
   tr.any (fun l => match l with | .incRecvRet .eof => true | _ => false)
 
-def closeSendCalled (tr : List (Label M E)) : Bool :=
-  tr.any (fun l => match l with | .outCloseSend => true | _ => false)
+def closeSendCalled (tr : List (Label M E)) : Bool := tr.any isCloseSend
 
 def closeCalled (tr : List (Label M E)) : Bool :=
   tr.any (fun l => match l with | .outClose => true | _ => false)
@@ -117,15 +128,21 @@ def unilateral (p : Params) (s : State M E) : Label M E → Bool
 
 def MPc.returning : MPc M E → Bool
   | .uCloseErr _ => true | .deferClose _ => true | .deferCancel _ => true | .deferWait _ => true | .done _ => true
-  | _ => false
+  | .start => false | .uRecvPending => false | .streamCall _ => false | .streamPending _ => false
+  | .uSendCall _ => false | .uSendPending => false | .uCloseSend => false | .loop => false | .loopCloseSend => false
 
 def IRes.isErr : IRes E → Bool
   | .err _ => true | .eof => false
 
 /-- Termination of the call has been triggered: ctx cancelled, the o2i pump delivered its result, a
     non-EOF error was delivered by the i2o pump, or main is already on its way out. -/
+def chErr : Option (IRes E) → Bool
+  | some (.err _) => true
+  | some .eof => false
+  | none => false
+
 def terminating (s : State M E) : Bool :=
-  s.ctx.isSome || s.o2iCh.isSome || (match s.i2oCh with | some r => r.isErr | none => false) || s.main.returning
+  s.ctx.isSome || s.o2iCh.isSome || chErr s.i2oCh || s.main.returning
 
 def forcedMain (e0 : E) (p : Params) (s : State M E) : Option (Label M E) :=
   let cx := s.ctx.isSome
